@@ -25,6 +25,7 @@ import (
 	"github.com/lightningnetwork/lnd/keychain"
 	"github.com/lightningnetwork/lnd/lnrpc"
 	"github.com/lightningnetwork/lnd/lnrpc/walletrpc"
+	"github.com/lightningnetwork/lnd/lnwallet/chainfee"
 )
 
 // A slim re-implementation of account/mock_test.go (which is not importable)
@@ -156,6 +157,14 @@ func (w *c07Wallet) PublishTransaction(_ context.Context, tx *wire.MsgTx,
 		return errors.New("verif-publish-fault")
 	}
 	return nil
+}
+
+func (w *c07Wallet) EstimateFeeRate(context.Context, int32) (chainfee.SatPerKWeight, error) {
+	return chainfee.FeePerKwFloor, nil
+}
+
+func (w *c07Wallet) EstimateFeeToP2WSH(context.Context, btcutil.Amount, int32) (btcutil.Amount, error) {
+	return 253, nil
 }
 
 func (w *c07Wallet) NextAddr(_ context.Context, _ string,
